@@ -1,6 +1,7 @@
 import TonicModel.Model.RichError
 import TonicModel.Spec.RichError
 import TonicModel.Lemmas.RichError
+import TonicModel.Lemmas.RichErrorWire
 /-
 C20 — rich error details round-trip through a status.  Property theorems only.
 
@@ -96,6 +97,155 @@ theorem C20_decode_total (P : Prost) (b : Bytes) :
   constructor
   · cases h : checkVec P b <;> simp [getVec, h]
   · cases h : checkSet P b <;> simp [getSet, h]
+
+/-! ## prost made concrete: the protobuf wire model
+
+`prost : Prost` is the model of prost 0.13's reader/writer on the generated `pb` types
+(`Basic/PbWire` + the field tables of `generated/google_rpc.rs`).  For it the laws are theorems,
+so the only remaining hypothesis of the composed statements is the header round trip. -/
+
+/-- prost's encoding of each of the ten detail messages decodes back to the same detail: for all
+UTF-8 strings, any number of violations / links / stack entries, metadata maps with distinct
+keys, retry delays whose seconds fit an `i64`. -/
+theorem C20_prost_detail_roundtrip (d : ErrorDetail) (hwf : Spec.RichError.wfDetail d = true)
+    (hsize : (prost.encDetail d).length < 18446744073709551616) :
+    prost.decDetail d.kind (prost.encDetail d) = some d :=
+  prost_detail_law d ⟨hwf, hsize⟩
+
+/-- prost's encoding of google.rpc.Status `{code, message, details: Any*}` decodes back to the
+same message, for every `int32` code, UTF-8 message and list of `Any`s with UTF-8 type URLs and
+arbitrary value bytes. -/
+theorem C20_prost_status_roundtrip (st : PbStatus)
+    (hcode : -2147483648 ≤ st.code ∧ st.code < 2147483648) (hmsg : Utf8Rust.valid st.message = true)
+    (hurl : ∀ a ∈ st.details, Utf8Rust.valid a.typeUrl = true)
+    (hsize : (prost.encStatus st).length < 18446744073709551616) :
+    prost.decStatus (prost.encStatus st) = some st :=
+  prost_status_law st ⟨hcode, hmsg, hurl, hsize⟩
+
+section wire
+variable {M H : Type} (hdr : Status M → H) (unhdr : H → Option (Status M))
+  (hh : ∀ st, unhdr (hdr st) = some st)
+include hh
+
+/-- The list form end to end over the wire model: attach, encode with prost, travel through the
+header encoding, decode with prost, dispatch — the same list comes back, and the outer code and
+message are unchanged. -/
+theorem C20_wire_vec_roundtrip (code : Nat) (msg : Bytes) (ds : List ErrorDetail) (md : M)
+    (hcode : code ≤ 16) (hmsg : Utf8Rust.valid msg = true)
+    (hwf : ∀ d ∈ ds, Spec.RichError.wfDetail d = true)
+    (hsize : (withVec prost code msg ds md).details.length < 18446744073709551616) :
+    ∃ st, unhdr (hdr (withVec prost code msg ds md)) = some st ∧ st.code = code ∧ st.message = msg ∧
+      checkVec prost st.details = some ds ∧ getVec prost st.details = ds := by
+  obtain ⟨hd, hs⟩ := wf_of_plain code msg ds hwf hmsg hcode hsize
+  exact C20_vec_roundtrip prost prost_laws hdr unhdr hh code msg ds md hd hs
+
+/-- The set form end to end over the wire model. -/
+theorem C20_wire_set_roundtrip (code : Nat) (msg : Bytes) (s : ErrorDetails) (md : M)
+    (hcode : code ≤ 16) (hmsg : Utf8Rust.valid msg = true)
+    (hwf : ∀ d ∈ s.toList, Spec.RichError.wfDetail d = true)
+    (hsize : (withSet prost code msg s md).details.length < 18446744073709551616) :
+    ∃ st, unhdr (hdr (withSet prost code msg s md)) = some st ∧ st.code = code ∧ st.message = msg ∧
+      checkSet prost st.details = some s ∧ getSet prost st.details = s := by
+  obtain ⟨hd, hs⟩ := wf_of_plain code msg s.toList hwf hmsg hcode hsize
+  exact C20_set_roundtrip prost prost_laws hdr unhdr hh code msg s md hd hs
+
+/-- The getters end to end over the wire model: first detail of the kind, or nothing. -/
+theorem C20_wire_getters_first (code : Nat) (msg : Bytes) (ds : List ErrorDetail) (md : M) (k : Kind)
+    (hcode : code ≤ 16) (hmsg : Utf8Rust.valid msg = true)
+    (hwf : ∀ d ∈ ds, Spec.RichError.wfDetail d = true)
+    (hsize : (withVec prost code msg ds md).details.length < 18446744073709551616) :
+    ∃ st, unhdr (hdr (withVec prost code msg ds md)) = some st ∧
+      getFirst prost k st.details = Spec.RichError.firstOfKind k ds := by
+  obtain ⟨hd, hs⟩ := wf_of_plain code msg ds hwf hmsg hcode hsize
+  exact C20_getters_first prost prost_laws hdr unhdr hh code msg ds md k hd hs
+
+/-- The google.rpc.Status that prost decodes from the bytes that arrive has the outer status'
+code and message (whatever the details are, well-formed or not, as long as prost could encode
+them: this clause needs no hypothesis on the details' contents). -/
+theorem C20_wire_embedded_status (code : Nat) (msg : Bytes) (ds : List ErrorDetail) (md : M)
+    (hcode : code ≤ 16) (hmsg : Utf8Rust.valid msg = true)
+    (hsize : (withVec prost code msg ds md).details.length < 18446744073709551616) :
+    ∃ st emb, unhdr (hdr (withVec prost code msg ds md)) = some st ∧
+      prost.decStatus st.details = some emb ∧ emb.code = st.code ∧ emb.message = st.message ∧
+      emb.details.length = ds.length := by
+  have hs : WFs ⟨code, msg, ds.map (intoAny prost)⟩ := by
+    refine ⟨by show (-2147483648 : Int) ≤ (code : Int) ∧ (code : Int) < 2147483648; omega, hmsg, ?_, hsize⟩
+    intro a ha
+    obtain ⟨d, _, rfl⟩ := List.mem_map.mp ha
+    exact valid_typeUrl _
+  refine ⟨_, _, hh _, prost_status_law _ hs, rfl, rfl, by simp⟩
+
+end wire
+
+/-! ## `RetryInfo`: the clamp on the way in, the negative-delay rule on the way out -/
+
+/-- Everything built through `RetryInfo::new` / `ErrorDetails::set_retry_info` is inside the
+domain of the round-trip theorems (the clamp keeps the seconds far below `i64::MAX`). -/
+theorem C20_retry_new_in_domain (d : Dur) (hn : d.nanos < 1000000000) :
+    Spec.RichError.wfDetail (.retryInfo (RetryInfo.new (some d))) = true := by
+  obtain ⟨s, n⟩ := d
+  simp only [RetryInfo.new, Option.map_some, Spec.RichError.wfDetail]
+  cases hc : Dur.gt ⟨s, n⟩ maxRetryDelay
+  · simp only [Bool.false_eq_true, if_false]
+    simp only [Dur.gt, maxRetryDelay, Bool.or_eq_false_iff, Bool.and_eq_false_iff,
+      beq_eq_false_iff_ne] at hc
+    simp only [Spec.RichError.wfDur, Bool.and_eq_true, decide_eq_true_eq]
+    have h1 : ¬ (315576000000 < s) := of_decide_eq_false hc.1
+    exact ⟨by omega, hn⟩
+  · simp only [if_true]; decide
+
+/-- Outside the domain (a `RetryInfo { retry_delay }` literal whose seconds exceed `i64::MAX`)
+the delay that comes back is the documented maximum, not the original. -/
+theorem C20_retry_out_of_range (s n : Nat) (hs : 9223372036854775807 < s) :
+    durOfPb (durToPb ⟨s, n⟩) = maxRetryDelay := by
+  have : ¬ ((s : Int) ≤ i64Max) := by simp only [i64Max]; omega
+  simp only [durToPb, this, if_false]
+  decide
+
+/-- FINDING (pinned tree, before fix-C20-retry-delay-i64-min): a `RetryInfo` whose
+`retry_delay.seconds` is `i64::MIN` — 13 bytes any peer can send — makes
+`From<pb::RetryInfo>` negate `i64::MIN`, which panics when overflow checks are on.  The witness
+is the value field of the `Any`; `some none` = decoded by prost, then panic. -/
+theorem C20_retry_delay_asis_fails :
+    retryDelayAsIs [0x0a, 0x0b, 0x08, 0x80, 0x80, 0x80, 0x80, 0x80, 0x80, 0x80, 0x80, 0x80, 0x01] = some none := by
+  decide +kernel
+
+/-- The panic happens exactly when the normalized seconds are `i64::MIN` … -/
+theorem C20_retry_delay_panic_iff (s n : Int) :
+    durOfPairAsIs s n = none ↔ (normalize s n).1 = i64Min := by
+  unfold durOfPairAsIs
+  split
+  · rename_i h; simp only [i64Min]; constructor
+    · intro h'; cases h'
+    · intro h'; omega
+  · split <;> simp_all
+
+/-- … and the repaired conversion differs from the original nowhere else: wherever the original
+returns, the repaired one returns the same delay; where it panicked, the repaired one gives zero
+(the documented "negative retry_delays become 0"). -/
+theorem C20_retry_delay_fix_agrees (s n : Int) :
+    (∀ d, durOfPairAsIs s n = some d → durOfPair s n = d) ∧
+    (durOfPairAsIs s n = none → durOfPair s n = ⟨0, 0⟩) := by
+  unfold durOfPairAsIs durOfPair
+  constructor
+  · intro d h
+    split at h
+    · rename_i hpos
+      have : ¬ ((normalize s n).1 < 0 ∨ (normalize s n).2 < 0) := by omega
+      simp only [this, if_false]
+      exact Option.some.inj h
+    · rename_i hneg
+      have : (normalize s n).1 < 0 ∨ (normalize s n).2 < 0 := by omega
+      simp only [this, if_true]
+      split at h
+      · cases h
+      · exact Option.some.inj h
+  · intro h
+    split at h
+    · cases h
+    · rename_i hneg
+      have : (normalize s n).1 < 0 ∨ (normalize s n).2 < 0 := by omega
+      simp only [this, if_true]
 
 /- Non-vacuity: the wire model satisfies the shape of the hypotheses on a concrete value. -/
 example : checkVec prost (withVec prost 3 [0x6d] [.localizedMessage ⟨[0x65, 0x6e], [0xc3, 0xa9]⟩,
